@@ -24,6 +24,7 @@ CFG = '''CONSTANTS
 INIT Init
 NEXT Next
 INVARIANT EditsLocal
+INVARIANT StoredIsParsed
 INVARIANT EmitEdits
 CHECK_DEADLOCK FALSE
 '''
@@ -185,7 +186,7 @@ def main(argv: List[str]) -> int:
     rep.rule = ('case = (model seed, route, pre-rendered or not); 18 edit kinds; history length 1..MaxEdits; non-trivial = the history '
                 'has an edit that is not a skip')
     rep.assumptions = ['the fresh database is built by pv/builder.py from the final model computed by the specification',
-                       'reference kind edits stay within > < - (many-to-many inline-ness is not observable through the public property)']
+                       'the inline flag a reference remembers while it is many-to-many is modelled (Edits!Stored / Eff): it is observable as soon as the kind is edited']
     n = doccheck.budget(500, 6000)
     max_edits = doccheck.budget(5, 10)
     lo = core.seed() * 100000 + 11001
